@@ -123,18 +123,15 @@ Proof.
   intros s r methods H. unfold final_message, plain_final. rewrite (plain_respond _ _ _ H). unfold respond_plain.
   destruct (render methods r); reflexivity.
 Qed.
-(* the decision table of the observable path, with its case split:
+(* the decision table of the observable path:
    - add_observation raising: that exception, rendered as usual;
-   - observation accepted (also when deregistered early): the plain table — unless the observation gets established
-     (successful first response), in which case the first response is not final (C08 takes over);
-   - observation DECLINED: a successful or unsuccessful returned message is final as usual, but every exception out of
-     the handler (renderable errors, 4.05 included) is replaced by the AttributeError of the finally block: bare 5.00 (finding) *)
+   - otherwise (observation accepted, deregistered early, or declined): the plain table — unless the observation gets
+     established (accepted, successful first response), in which case the first response is not final (C08 takes over) *)
 Lemma observable_final_message : forall s r methods mode,
   find_resource s (r_path r) = Some (Observable methods mode) -> observing r = true ->
   final_message (Some s) r =
     match mode with
     | ORaise e => final_of_exc e
-    | ODecline => match render methods r with Responded m => Some m | Raised _ => Some bare_500 end
     | _ => if establishes methods mode r then None else plain_final methods r
     end.
 Proof.
@@ -145,6 +142,11 @@ Proof.
   - destruct (render methods r) as [m|e] eqn:Hr; reflexivity.
   - destruct (render methods r) as [m|e] eqn:Hr; reflexivity.
 Qed.
+(* in particular a declined observation is answered exactly like a plain request: the handler's own error code and text *)
+Lemma declined_observation_plain : forall s r methods,
+  find_resource s (r_path r) = Some (Observable methods ODecline) -> observing r = true ->
+  final_message (Some s) r = plain_final methods r.
+Proof. intros s r methods Hf Ho. rewrite (observable_final_message s r methods ODecline Hf Ho). reflexivity. Qed.
 (* totality: whenever the rendering is of the finalising kind — not a resource with its own render_to_pipe, not an
    observation being established — there is a final message *)
 Definition finalising (srv : option site) (r : request) : Prop :=
@@ -158,23 +160,20 @@ Definition finalising (srv : option site) (r : request) : Prop :=
   end.
 Lemma respond_shapes : forall srv r, finalising srv r ->
   (exists m, respond srv r = [RAdd (VMsg m) true; RReturn]) \/
-  (exists m, respond srv r = [RAdd (VMsg m) true; RRaise EOther]) \/
   (exists e, respond srv r = [RRaise e]).
 Proof.
   intros [s|] r Hn; [|left; eexists; reflexivity]. unfold respond, finalising in *.
-  destruct (find_resource s (r_path r)) as [[methods| |methods mode]|]; [| destruct Hn | | right; right; eexists; reflexivity].
-  - unfold respond_plain. destruct (render methods r); [left|right; right]; eexists; reflexivity.
+  destruct (find_resource s (r_path r)) as [[methods| |methods mode]|]; [| destruct Hn | | right; eexists; reflexivity].
+  - unfold respond_plain. destruct (render methods r); [left|right]; eexists; reflexivity.
   - destruct (observing r); [specialize (Hn eq_refl)|].
     + unfold respond_observable. rewrite Hn.
-      destruct mode as [| | |e]; [| | |right; right; eexists; reflexivity];
-        destruct (render methods r); try (left; eexists; reflexivity); try (right; right; eexists; reflexivity).
-      right; left; eexists; reflexivity.
-    + unfold respond_plain. destruct (render methods r); [left|right; right]; eexists; reflexivity.
+      destruct mode as [| | |e]; [| | |right; eexists; reflexivity];
+        destruct (render methods r); try (left; eexists; reflexivity); right; eexists; reflexivity.
+    + unfold respond_plain. destruct (render methods r); [left|right]; eexists; reflexivity.
 Qed.
 Lemma final_message_total : forall srv r, finalising srv r -> exists m, final_message srv r = Some m.
 Proof.
-  intros srv r Hn. unfold final_message. destruct (respond_shapes srv r Hn) as [(m & ->)|[(m & ->)|(e & ->)]].
-  - eexists; reflexivity.
+  intros srv r Hn. unfold final_message. destruct (respond_shapes srv r Hn) as [(m & ->)|(e & ->)].
   - eexists; reflexivity.
   - apply final_of_exc_some.
 Qed.
@@ -396,9 +395,8 @@ Lemma coroutine_final_once : forall srv r, finalising srv r ->
   exists m acts n, final_message srv r = Some m /\
                    run_ractions live (respond srv r) = (ended, acts, n) /\ filter is_send acts = [Send m true].
 Proof.
-  intros srv r Hn. unfold final_message. destruct (respond_shapes srv r Hn) as [(m & ->)|[(m & ->)|(e & ->)]].
+  intros srv r Hn. unfold final_message. destruct (respond_shapes srv r Hn) as [(m & ->)|(e & ->)].
   - exists m, [Send m true], 0. repeat split; reflexivity.
-  - exists m, [Send m true; Log LogDiscarded], 0. repeat split; reflexivity.
   - cbn [run_ractions]. rewrite live_raise.
     destruct e as [[[m| | |]|]|]; cbn;
       [exists m, [Send m true], 0 | exists bare_500, [Log LogRenderFailed; Send bare_500 true], 0 | exists bare_500, [Log LogRenderFailed; Send bare_500 true], 0
